@@ -65,6 +65,10 @@ def inst(ast, env):
     if k == "i":
         s = env.lookup(ast[1])
         return s.nz[ast[2]] if s.numel() > 1 else s
+    if k == "next":
+        return env.stage.next(inst(ast[1], env))
+    if k == "prev":
+        return env.stage.prev(inst(ast[1], env))
     if k == "in":  # expression of another stage of the same OCP
         return inst(ast[2], env.scope.node(ast[1]).env)
     if k == "tf":
@@ -178,6 +182,15 @@ def subst_consts(ast, consts):
         r, c, flat = consts[ast[1]]
         return ["c", flat[ast[2]] if r * c > 1 else flat[0]]
     return [k] + [subst_consts(a, consts) for a in ast[1:]]
+
+
+def subst_exprs(ast, table):
+    """replace whole scalar symbols by expressions (name -> AST)"""
+    if not isinstance(ast, list) or not ast:
+        return ast
+    if ast[0] in ("s", "i") and ast[1] in table:
+        return table[ast[1]]
+    return [ast[0]] + [subst_exprs(a, table) for a in ast[1:]]
 
 
 def size(ast):
